@@ -1588,7 +1588,7 @@ Definition lfind_p (n : string) (ls : list pleaf) : option pleaf :=
 Definition child_unvisited (x : pnode) : bool :=
   match x with PLeaf _ _ _ vis => negb vis | PFlat vis _ _ => negb vis end.
 Definition child_ok0 (x : pnode) : Prop :=
-  match x with PFlat xv _ xrem => (xv = true <-> xrem = O) | _ => True end.
+  match x with PFlat xv _ xrem => (xv = true -> xrem = O) | _ => True end.
 
 Fixpoint pwf (p : pnode) : Prop :=
   match p with
@@ -1620,20 +1620,16 @@ Proof.
   - rewrite IH. split; intros H x; [intros [<-|Hx]; [assumption|now apply H]|intros Hx; apply H; now right].
 Qed.
 
-Lemma pdone_iff p : pwf p -> (pdone p <-> forall l, In l (pleaves p) -> lvis l = true).
+Lemma pdone_imp p : pwf p -> pdone p -> forall l, In l (pleaves p) -> lvis l = true.
 Proof.
   induction p as [nm ty v vis|vis sub rem IH] using pnode_ind'; intros W.
-  - cbn. split; [intros -> l [<-|[]]; reflexivity|]. intros H. exact (H _ (or_introl eq_refl)).
+  - cbn. intros -> l [<-|[]]. reflexivity.
   - apply pwf_flat in W as [-> Ok]. cbn [pdone pleaves]. rewrite filter_nil_iff.
-    rewrite Forall_forall in IH, Ok. split.
-    + intros H l Hl. apply in_flat_map in Hl as (x & Hx & Hl). specialize (H x Hx).
-      destruct (Ok x Hx) as [Wx Cx]. apply (proj1 (IH x Hx Wx)); [|assumption].
-      destruct x as [nm ty v xv|xv xsub xrem]; cbn in *; [now apply negb_false_iff in H|].
-      apply negb_false_iff in H. now apply Cx.
-    + intros H x Hx. destruct (Ok x Hx) as [Wx Cx].
-      assert (D : pdone x). { apply (IH x Hx Wx). intros l Hl. apply H. apply in_flat_map. eauto. }
-      destruct x as [nm ty v xv|xv xsub xrem]; cbn in *; [now rewrite D|].
-      apply negb_false_iff. now apply Cx.
+    rewrite Forall_forall in IH, Ok.
+    intros H l Hl. apply in_flat_map in Hl as (x & Hx & Hl). specialize (H x Hx).
+    destruct (Ok x Hx) as [Wx Cx]. apply (IH x Hx Wx); [|assumption].
+    destruct x as [nm ty v xv|xv xsub xrem]; cbn in *; [now apply negb_false_iff in H|].
+    apply negb_false_iff in H. now apply Cx.
 Qed.
 
 Definition is_leaf_named (n : string) (x : pnode) : bool :=
@@ -1714,7 +1710,8 @@ Definition sf_spec (p : pnode) (n : string) (ty : dty) : Prop :=
           | None => serialize_field p n ty = Err (EColumnSerializationFailed n)
           | Some cl => exists sub' rem',
               serialize_field p n ty = Ok (status_of rem', PFlat vis sub' rem', Some cl) /\
-              pwf (PFlat vis sub' rem') /\ flat_map pleaves sub' = pmark n (flat_map pleaves sub)
+              pwf (PFlat vis sub' rem') /\ flat_map pleaves sub' = pmark n (flat_map pleaves sub) /\
+              (rem' <= rem)%nat
           end
       end
   end.
@@ -1766,7 +1763,7 @@ Proof.
       assert (Nr : ~ In n (map lname (flat_map pleaves r))).
       { apply lfind_p_some in LF as [Hin <-]. apply (NoDup_app_notin _ _ _ HN). now apply in_map. }
       destruct (ser_field t0 v0 ty) as [cl|]; [|now rewrite HSx].
-      destruct HSx as (sub' & rem' & -> & W' & P').
+      destruct HSx as (sub' & rem' & -> & W' & P' & LE).
       assert (Cr : pmark n (flat_map pleaves r) = flat_map pleaves r) by now apply pmark_notin.
       destruct rem' as [|k]; cbn [status_of].
       * exists true, (negb xv), (PFlat true sub' 0 :: r). repeat split.
@@ -1778,13 +1775,9 @@ Proof.
       * (* NotDone: the struct cannot have been finished before *)
         assert (Hxv : xv = false).
         { destruct xv; [|reflexivity]. exfalso. cbn [child_ok0] in Cx.
-          assert (D : pdone (PFlat true xs xr)) by (cbn; now apply Cx).
-          pose proof (proj1 (pdone_iff _ Wx) D) as D2. cbn [pleaves] in D2.
-          assert (D' : pdone (PFlat true sub' (S k))).
-          { apply (proj2 (pdone_iff _ W')). cbn [pleaves]. rewrite P'. now apply pmark_vis_mono. }
-          cbn in D'. discriminate. }
+          assert (xr = O) by now apply Cx. lia. }
         subst xv. exists false, false, (PFlat false sub' (S k) :: r). repeat split.
-        -- constructor; [|assumption]. split; [assumption|]. cbn. split; discriminate.
+        -- constructor; [|assumption]. split; [assumption|]. cbn. discriminate.
         -- cbn [flat_map pleaves]. unfold pmark in *. now rewrite map_app, P', Cr.
         -- unfold cnt. cbn [filter child_unvisited negb List.length]. lia.
         -- unfold cnt. cbn [filter child_unvisited negb List.length]. lia.
@@ -1838,10 +1831,10 @@ Proof.
     destruct was.
     + assert (rem = cnt pre + cnt post)%nat as -> by lia.
       exists (pre ++ PLeaf n t0 v0 true :: post), (cnt pre + cnt post)%nat.
-      split; [reflexivity|]. split; [exact Wnew|rewrite flat_map_app; exact HP].
+      split; [reflexivity|]. split; [exact Wnew|]. split; [rewrite flat_map_app; exact HP|lia].
     + assert (rem = S (cnt pre + cnt post))%nat as -> by lia. cbn [dec].
       exists (pre ++ PLeaf n t0 v0 true :: post), (cnt pre + cnt post)%nat.
-      split; [reflexivity|]. split; [exact Wnew|rewrite flat_map_app; exact HP].
+      split; [reflexivity|]. split; [exact Wnew|]. split; [rewrite flat_map_app; exact HP|lia].
   - (* a column of a flattened struct, or none *)
     apply leaf_visit_none in LV.
     pose proof (try_spec n ty sub) as T.
@@ -1854,46 +1847,85 @@ Proof.
       destruct dn.
       * destruct nv.
         -- rewrite Hrem, <- K'. replace (cnt l' + 1)%nat with (S (cnt l')) by lia. cbn [dec].
-           exists l', (cnt l'). split; [reflexivity|]. split; [|assumption]. apply pwf_flat. split; [reflexivity|assumption].
-        -- exists l', rem. split; [reflexivity|]. split; [|assumption]. apply pwf_flat. split; [|assumption]. fold (cnt l'). lia.
+           exists l', (cnt l'). split; [reflexivity|]. split; [|split; [assumption|lia]]. apply pwf_flat. split; [reflexivity|assumption].
+        -- exists l', rem. split; [reflexivity|]. split; [|split; [assumption|lia]]. apply pwf_flat. split; [|assumption]. fold (cnt l'). lia.
       * destruct (D' eq_refl) as [-> K1]. exists l', rem. split.
         -- assert (E : status_of rem = NotDone) by (destruct rem; [lia|reflexivity]). now rewrite E.
-        -- split; [|assumption]. apply pwf_flat. split; [|assumption]. fold (cnt l'). lia.
+        -- split; [|split; [assumption|lia]]. apply pwf_flat. split; [|assumption]. fold (cnt l'). lia.
     + now rewrite T.
 Qed.
-Lemma first_unvisited_flat_spec l :
-  Forall (fun x => pwf x -> match x with
-                            | PFlat _ _ (S _) => exists nm, check_missing x = Err (ENoColumnWithName nm)
-                            | _ => True end) l ->
-  Forall child_ok l -> first_unvisited_leaf l = None -> (1 <= cnt l)%nat ->
-  exists nm, first_unvisited_flat check_missing l = Err (ENoColumnWithName nm).
+Definition cm_spec (p : pnode) : Prop :=
+  match p with
+  | PLeaf _ _ _ _ => True
+  | PFlat _ _ _ =>
+      (check_missing p = Ok tt <-> forall l, In l (pleaves p) -> lvis l = true) /\
+      (check_missing p = Ok tt \/ exists nm, check_missing p = Err (ENoColumnWithName nm))
+  end.
+
+Lemma first_unvisited_leaf_none l : first_unvisited_leaf l = None ->
+  forall nm ty v vis, In (PLeaf nm ty v vis) l -> vis = true.
 Proof.
-  induction l as [|x r IH]; intros HI HC HL HK; [unfold cnt in HK; cbn in HK; lia|].
-  inversion HI as [|? ? HIx HIr]; subst. inversion HC as [|? ? HCx HCr]; subst.
-  destruct x as [nm ty v vis|xv xs xr]; cbn [first_unvisited_leaf first_unvisited_flat] in *.
-  - destruct vis; [|discriminate].
-    apply IH; try assumption; unfold cnt in *; cbn [filter child_unvisited negb] in HK; exact HK.
-  - destruct xv.
-    + apply IH; try assumption; unfold cnt in *; cbn [filter child_unvisited negb] in HK; exact HK.
-    + destruct HCx as [Wx Cx]. cbn [child_ok0] in Cx. specialize (HIx Wx).
-      destruct xr as [|k]; [|exact HIx]. exfalso. assert (X : false = true) by now apply Cx. discriminate X.
+  induction l as [|x r IH]; intros H nm ty v vis Hin; [contradiction|].
+  destruct x as [nm0 ty0 v0 vis0|xv xs xr]; cbn [first_unvisited_leaf] in H.
+  - destruct vis0; [|discriminate]. destruct Hin as [E|Hin]; [now injection E as _ _ _ <-|eauto].
+  - destruct Hin as [E|Hin]; [discriminate|eauto].
 Qed.
 
-Lemma check_missing_spec p : pwf p ->
-  match p with
-  | PFlat _ _ O => check_missing p = Ok tt
-  | PFlat _ _ (S _) => exists nm, check_missing p = Err (ENoColumnWithName nm)
-  | PLeaf _ _ _ _ => True
-  end.
+Lemma first_unvisited_leaf_some l nm : first_unvisited_leaf l = Some nm ->
+  exists ty v, In (PLeaf nm ty v false) l.
+Proof.
+  induction l as [|x r IH]; intros H; [discriminate|].
+  destruct x as [nm0 ty0 v0 vis0|xv xs xr]; cbn [first_unvisited_leaf] in H.
+  - destruct vis0.
+    + destruct (IH H) as (ty & v & Hin). exists ty, v. now right.
+    + injection H as <-. exists ty0, v0. now left.
+  - destruct (IH H) as (ty & v & Hin). exists ty, v. now right.
+Qed.
+
+Lemma check_unvisited_flats_spec l :
+  Forall (fun x => pwf x -> cm_spec x) l -> Forall child_ok l -> first_unvisited_leaf l = None ->
+  (check_unvisited_flats check_missing l = Ok tt <-> forall lf, In lf (flat_map pleaves l) -> lvis lf = true) /\
+  (check_unvisited_flats check_missing l = Ok tt \/
+   exists nm, check_unvisited_flats check_missing l = Err (ENoColumnWithName nm)).
+Proof.
+  induction l as [|x r IH]; intros HI HC HL.
+  - cbn. split; [split; [intros _ lf []|reflexivity]|now left].
+  - inversion HI as [|? ? HIx HIr]; subst. inversion HC as [|? ? HCx HCr]; subst.
+    destruct x as [nm ty v vis|xv xs xr]; cbn [first_unvisited_leaf check_unvisited_flats flat_map pleaves] in *.
+    + destruct vis; [|discriminate]. destruct (IH HIr HCr HL) as [I1 I2]. split; [|assumption].
+      rewrite I1. split; intros H lf Hin.
+      * destruct Hin as [<-|Hin]; [reflexivity|now apply H].
+      * apply H. now right.
+    + destruct HCx as [Wx Cx]. destruct (IH HIr HCr HL) as [I1 I2]. cbn [child_ok0] in Cx.
+      assert (App : forall Q : pleaf -> Prop, (forall lf, In lf (flat_map pleaves xs ++ flat_map pleaves r) -> Q lf) <->
+                    (forall lf, In lf (flat_map pleaves xs) -> Q lf) /\ (forall lf, In lf (flat_map pleaves r) -> Q lf)).
+      { intros Q. split.
+        - intros H. split; intros lf Hin; apply H; apply in_or_app; tauto.
+        - intros [H1 H2] lf Hin. apply in_app_or in Hin as [Hin|Hin]; auto. }
+      rewrite App. destruct xv.
+      * assert (Vx : forall lf, In lf (flat_map pleaves xs) -> lvis lf = true).
+        { apply (pdone_imp _ Wx). cbn. now apply Cx. }
+        split; [|assumption]. rewrite I1. tauto.
+      * destruct (HIx Wx) as [X1 X2]. cbn [pleaves] in X1.
+        destruct X2 as [X2|[nm X2]]; rewrite X2.
+        -- split; [|assumption]. rewrite I1. pose proof (proj1 X1 X2). tauto.
+        -- split; [|right; now exists nm]. split; [discriminate|]. intros [H _]. apply X1 in H. congruence.
+Qed.
+
+Lemma check_missing_spec p : pwf p -> cm_spec p.
 Proof.
   induction p as [nm t1 v1 vis1|vis sub rem IH] using pnode_ind'; intros W; [exact I|].
-  destruct rem as [|k]; [reflexivity|]. cbn [check_missing].
-  destruct (first_unvisited_leaf sub) as [nm|] eqn:FL; [now exists nm|].
-  apply pwf_flat in W as [Hrem HC].
-  apply first_unvisited_flat_spec; try assumption.
-  - rewrite Forall_forall in IH |- *. intros x Hx Wx. specialize (IH x Hx Wx).
-    destruct x as [|xv xs [|j]]; try exact I. exact IH.
-  - unfold cnt. lia.
+  cbn [cm_spec]. pose proof W as W0. apply pwf_flat in W as [Hrem HC].
+  destruct rem as [|k].
+  - cbn [check_missing]. split; [|now left]. split; [|reflexivity]. intros _.
+    apply (pdone_imp _ W0). reflexivity.
+  - cbn [check_missing pleaves]. destruct (first_unvisited_leaf sub) as [nm|] eqn:FL.
+    + split; [|right; now exists nm]. split; [discriminate|]. intros H. exfalso.
+      destruct (first_unvisited_leaf_some _ _ FL) as (ty & v & Hin).
+      assert (X : lvis (nm, ty, v, false) = true).
+      { apply H. apply in_flat_map. exists (PLeaf nm ty v false). split; [assumption|now left]. }
+      discriminate X.
+    + now apply check_unvisited_flats_spec.
 Qed.
 
 (* the initial partial of a struct *)
@@ -1917,59 +1949,47 @@ Lemma lv_app a b seen : lv (a ++ b) seen = lv a seen ++ lv b seen.
 Proof. unfold lv. apply map_app. Qed.
 
 Lemma partial_fields_spec sub :
-  Forall (fun x => flat_nonempty x = true -> rf_skip x = false ->
+  Forall (fun x => rf_skip x = false ->
                    child_ok (mk_partial x) /\ child_unvisited (mk_partial x) = true /\
                    pleaves (mk_partial x) = lv (leaves_of x) []) sub ->
-  forallb flat_nonempty sub = true ->
   let ps := partial_fields mk_partial sub in
   Forall child_ok ps /\ cnt ps = List.length ps /\ flat_map pleaves ps = lv (flat_map leaves_of sub) [].
 Proof.
-  induction sub as [|x r IH]; intros HI HN; [cbn; repeat split; constructor|].
-  inversion HI as [|? ? HIx HIr]; subst. cbn [forallb] in HN. apply andb_true_iff in HN as [HNx HNr].
-  destruct (IH HIr HNr) as (C & K & L). cbn [partial_fields flat_map]. fold (partial_fields mk_partial r).
+  induction sub as [|x r IH]; intros HI; [cbn; repeat split; constructor|].
+  inversion HI as [|? ? HIx HIr]; subst.
+  destruct (IH HIr) as (C & K & L). cbn [partial_fields flat_map]. fold (partial_fields mk_partial r).
   destruct (rf_skip x) eqn:Sx.
   - cbv zeta. repeat split; try assumption. rewrite lv_app, <- L.
     assert (E : leaves_of x = []).
     { destruct x as [l|s snc sub]; cbn [leaves_of rf_skip] in *; now rewrite Sx. }
     now rewrite E.
-  - destruct (HIx HNx eq_refl) as (Cx & Ux & Lx). cbv zeta. repeat split.
+  - destruct (HIx eq_refl) as (Cx & Ux & Lx). cbv zeta. repeat split.
     + constructor; assumption.
     + unfold cnt in *. cbn [filter]. rewrite Ux. cbn [List.length]. now rewrite K.
     + cbn [flat_map]. now rewrite lv_app, Lx, L.
 Qed.
 
-Lemma mk_partial_spec f : flat_nonempty f = true -> rf_skip f = false ->
+Lemma mk_partial_spec f : rf_skip f = false ->
   child_ok (mk_partial f) /\ child_unvisited (mk_partial f) = true /\
   pleaves (mk_partial f) = lv (leaves_of f) [].
 Proof.
-  induction f as [l|s snc sub IH] using rfield_ind'; intros HN HS.
+  induction f as [l|s snc sub IH] using rfield_ind'; intros HS.
   - cbn [rf_skip] in HS. cbn [mk_partial leaves_of]. rewrite HS. repeat split.
-  - cbn [rf_skip] in HS. subst s. cbn [flat_nonempty orb] in HN. apply andb_true_iff in HN as [HN1 HN2].
-    cbn [mk_partial leaves_of].
-    destruct (partial_fields_spec sub IH HN2) as (C & K & L). cbv zeta in C, K, L.
-    set (ps := partial_fields mk_partial sub) in *.
-    assert (Hlen : (1 <= List.length ps)%nat).
-    { destruct ps as [|y ps']; [|cbn; lia]. cbn [flat_map] in L.
-      destruct (flat_map leaves_of sub); [discriminate HN1|discriminate L]. }
+  - cbn [rf_skip] in HS. subst s. cbn [mk_partial leaves_of].
+    destruct (partial_fields_spec sub IH) as (C & K & L). cbv zeta in C, K, L.
     split; [|split; [reflexivity|exact L]].
     split.
     + apply pwf_flat. split; [now rewrite <- K|assumption].
-    + cbn [child_ok0]. split; [discriminate|]. intros E. lia.
+    + cbn [child_ok0]. discriminate.
 Qed.
 
-Lemma mk_partial_top fields : forallb flat_nonempty fields = true ->
+Lemma mk_partial_top fields :
   pwf (mk_partial (RFlat false false fields)) /\
   pleaves (mk_partial (RFlat false false fields)) = lv (flat_map leaves_of fields) [].
 Proof.
-  intros HN. cbn [mk_partial].
-  assert (HI : Forall (fun x => flat_nonempty x = true -> rf_skip x = false ->
-                   child_ok (mk_partial x) /\ child_unvisited (mk_partial x) = true /\
-                   pleaves (mk_partial x) = lv (leaves_of x) []) fields).
-  { apply Forall_forall. intros x _. apply mk_partial_spec. }
-  destruct (partial_fields_spec fields HI HN) as (C & K & L). cbv zeta in C, K, L. split.
-  - apply pwf_flat. split; [now rewrite <- K|assumption].
-  - exact L.
+  destruct (mk_partial_spec (RFlat false false fields) eq_refl) as ([W _] & _ & L). split; assumption.
 Qed.
+
 Definition rcellof (ls : list rleaf) (c : dbfield) : cell :=
   match lfind (fst c) ls with
   | Some l => match ser_field (rl_ty l) (rl_val l) (snd c) with Some cl => cl | None => None end
@@ -2008,7 +2028,7 @@ Proof.
     cbn [sf_spec] in S. cbn [pleaves] in L. rewrite L, lfind_lv in S.
     destruct (lfind n ls) as [l|] eqn:F; cbn [option_map] in S.
     + destruct (ser_field (rl_ty l) (rl_val l) ty) as [cl|] eqn:SF.
-      * destruct S as (sub' & rem' & -> & W' & P'). cbn [andb].
+      * destruct S as (sub' & rem' & -> & W' & P' & _). cbn [andb].
         assert (St : forall X Y : result err (pnode * list cell),
                    match status_of rem' with NotUsed => X | _ => Y end = Y) by (intros; now destruct rem').
         assert (Ecl : rcellof ls (n, ty) = cl) by (unfold rcellof; cbn [fst snd]; now rewrite F, SF).
@@ -2068,10 +2088,10 @@ Theorem ser_row_by_name_doc d cols : rdesc_wf d = true ->
   outcome_of (gen_ser_row_by_name d cols) = doc_ser_row_by_name d cols /\
   gen_ser_row_by_name d cols <> Err EPanic.
 Proof.
-  unfold rdesc_wf. intros H. apply andb_true_iff in H as [HN HE]. apply nodupb_NoDup in HN.
+  unfold rdesc_wf. intros HN. apply nodupb_NoDup in HN.
   rewrite doc_ser_row_by_name_eq. cbv zeta. unfold gen_ser_row_by_name.
   set (ls := rd_leaves d) in *.
-  destruct (mk_partial_top _ HE) as [W0 L0]. fold (rd_leaves d) in L0. fold ls in L0.
+  destruct (mk_partial_top (rd_fields d)) as [W0 L0]. fold (rd_leaves d) in L0. fold ls in L0.
   pose proof (byname_loop_char ls HN cols (mk_partial (RFlat false false (rd_fields d))) [] [] W0 L0) as B.
   specialize (B ltac:(cbn [mk_partial]; eauto)).
   assert (Known : forallb (col_ok ls) cols = true ->
@@ -2082,21 +2102,22 @@ Proof.
   destruct (forallb (col_ok ls) cols) eqn:OK.
   - destruct B as (p' & -> & Wp & Lp & (vis & sub & rem & ->)). cbn [app] in *.
     rewrite (Known eq_refl). cbn [negb].
-    pose proof (check_missing_spec _ Wp) as CM. pose proof (pdone_iff _ Wp) as PD. rewrite Lp in PD.
-    cbn [pdone] in PD.
-    assert (Vis : rem = O <-> forallb (fun l => mem (rl_name l) (map fst cols)) ls = true).
-    { rewrite PD, forallb_forall. unfold lv. split.
+    destruct (check_missing_spec _ Wp) as [CM1 CM2]. rewrite Lp in CM1.
+    assert (Vis : check_missing (PFlat vis sub rem) = Ok tt <->
+                  forallb (fun l => mem (rl_name l) (map fst cols)) ls = true).
+    { rewrite CM1, forallb_forall. unfold lv. split.
       - intros A l Hl. apply (A (rl_name l, rl_ty l, rl_val l, mem (rl_name l) (map fst cols))).
         apply in_map_iff. now exists l.
       - intros A x Hx. apply in_map_iff in Hx as (l & <- & Hl). cbn. now apply A. }
-    destruct rem as [|k].
-    + rewrite CM. rewrite (proj1 Vis eq_refl). cbn [negb outcome_of]. split; [reflexivity|discriminate].
-    + destruct CM as [nm ->]. destruct (forallb (fun l => mem (rl_name l) (map fst cols)) ls) eqn:V.
-      * exfalso. assert (S k = O) by now apply Vis. discriminate.
+    destruct CM2 as [CM2|[nm CM2]]; rewrite CM2.
+    + rewrite (proj1 Vis CM2). cbn [negb outcome_of]. split; [reflexivity|discriminate].
+    + destruct (forallb (fun l => mem (rl_name l) (map fst cols)) ls) eqn:V.
+      * exfalso. rewrite (proj2 Vis eq_refl) in CM2. discriminate.
       * cbn [negb outcome_of]. split; [reflexivity|discriminate].
   - destruct B as (e & -> & Ne). cbn [outcome_of negb]. split; [|congruence].
     destruct (negb (forallb _ cols)); [reflexivity|]. now destruct (negb (forallb _ ls)).
 Qed.
+
 (* ------------------------------------------------------------ rows by name: placement and round trip *)
 
 Definition rvalue_of (ls : list rleaf) (n : string) : cell :=
@@ -2117,7 +2138,7 @@ Theorem by_name_ser_row d cols : rdesc_wf d = true ->
 Proof.
   intros W P Acc. apply outcome_accept. rewrite (proj1 (ser_row_by_name_doc d cols W)).
   rewrite doc_ser_row_by_name_eq. cbv zeta. set (ls := rd_leaves d) in *.
-  unfold rdesc_wf in W. apply andb_true_iff in W as [HN _]. apply nodupb_NoDup in HN. fold ls in HN.
+  pose proof W as HN. unfold rdesc_wf in HN. apply nodupb_NoDup in HN. fold ls in HN.
   assert (Bound : forall c, In c cols -> exists l, lfind (fst c) ls = Some l).
   { intros c Hc. assert (H : In (fst c) (map rl_name ls)) by (eapply Permutation_in; [exact P|now apply in_map]).
     apply in_map_iff in H as (l & <- & Hl). exists l. now apply lfind_self. }
@@ -2162,7 +2183,7 @@ Proof.
   cbn [outcome_of] in S. unfold rd_leaves in S. rewrite (leaves_only_leaves _ _ LO) in S.
   set (nls := filter (fun l => negb (rl_skip l)) ls) in *.
   assert (Hnd : rnodup ls).
-  { unfold rnodup. fold nls. unfold rdesc_wf in W. apply andb_true_iff in W as [HN _]. apply nodupb_NoDup in HN.
+  { unfold rnodup. fold nls. pose proof W as HN. unfold rdesc_wf in HN. apply nodupb_NoDup in HN.
     unfold rd_leaves in HN. now rewrite (leaves_only_leaves _ _ LO) in HN. }
   destruct (negb (forallb _ cols)); [discriminate S|].
   destruct (negb (forallb _ nls)); [discriminate S|].
@@ -2412,28 +2433,6 @@ Proof.
     destruct (names_prefix_spec _ _ _ _ N) as [E1 E2]. rewrite app_nil_r in E1. subst p. tauto.
   - intros [E Acc]. rewrite <- E. rewrite <- (app_nil_r cols) at 2. rewrite names_prefix_complete. exact Acc.
 Qed.
-(* ------------------------------------------------------------ the known finding, and the theorem outside it *)
-
-Theorem ser_row_by_name_doc' d cols : nodupb (map rl_name (rd_leaves d)) = true ->
-  has_empty_flatten d = false ->
-  outcome_of (gen_ser_row_by_name d cols) = doc_ser_row_by_name d cols /\
-  gen_ser_row_by_name d cols <> Err EPanic.
-Proof.
-  intros H1 H2. apply ser_row_by_name_doc. unfold rdesc_wf. rewrite H1.
-  unfold has_empty_flatten in H2. apply negb_false_iff in H2. now rewrite H2.
-Qed.
-
-Definition empty_flatten_witness : rdesc :=
-  {| rd_ordered := false; rd_snc := false;
-     rd_fields := [ RFlat false false [];
-                    RFlat false false [ RLeaf {| rl_ident := "c"; rl_rename := None; rl_skip := false;
-                                                 rl_dwn := false; rl_ty := ROptInt; rl_val := None |} ] ] |}.
-
-Theorem ser_row_empty_flatten_refuted : exists d cols,
-  nodupb (map rl_name (rd_leaves d)) = true /\ known_empty_flatten d cols = true /\
-  gen_ser_row_by_name d cols = Ok [] /\ doc_ser_row_by_name d cols = Reject.
-Proof. exists empty_flatten_witness, []. repeat split; vm_compute; reflexivity. Qed.
-
 (* ------------------------------------------------------------ enforce_order: deserialize = documented values *)
 
 Definition vdoc_val (its : list (dbfield * cell)) (f : vfield) : option cell := doc_field_value f its.
